@@ -343,6 +343,13 @@ func (mf *MultiFileAppendable) Append(bs []byte) (off int64, n int, err error) {
 		available := mf.fileSize - int(mf.currApp.Offset())
 
 		if available <= 0 {
+			// Sync only reaches the current chunk: a chunk must be durable
+			// before any later chunk can be synced on top of it
+			err = mf.currApp.Sync()
+			if err != nil {
+				return off, n, err
+			}
+
 			// by switching to read-only mode, the write buffer is freed
 			err = mf.currApp.SwitchToReadOnlyMode()
 			if err != nil {
